@@ -4,9 +4,9 @@
 //!  * controlled schedules: real threads run the pool code and hand a baton back to a controlling
 //!    thread at every schedule point of the `zipora_verif` hooks (one point before each shared
 //!    access of the free-list code), so a schedule is a list of thread ids and replays exactly.
-//!    Cells: LockFreeMemoryPool (tagged head, compared with the Coq model step by step),
-//!    five-level LockFreePool (compared with the model), FixedCapacityMemoryPool and the
-//!    SecureMemoryPool (cache + Treiber stack) - oracle only.
+//!    Cells: LockFreeMemoryPool, five-level LockFreePool, FixedCapacityMemoryPool, SecureMemoryPool
+//!    (caches + Treiber stack) and MemoryPool (pool.rs) - each compared with its Coq model step by step
+//!    (coq/C08/Cases.v) on top of the oracle.
 //!  * free-running stress with an ownership table for every pool the property names.
 //! The oracle is the property: a block handed out while another thread owns it, a block that is
 //! neither owned nor reachable after quiescence, a free list with a cycle / foreign link /
@@ -1622,7 +1622,7 @@ fn stress_gp(nthr: usize, iters: usize, seed: u64, hold: usize) -> Vec<String> {
 pub fn run(args: &Args) {
     if std::env::var("ZV_C08_DEBUG").is_ok() { let _ = std::panic::take_hook(); }
     let mut cx = Ctx {
-        sum: Summary::new("C08", "controlled schedules (real threads parked at every schedule point of the zipora_verif hooks): corpus witnesses, every interleaving of two threads x one operation on a pre-filled free list, every interleaving of short pop/push pairs, then random programs of 2-3 threads (alloc / free k-th held / owner overwrites the link word / foreign malloc) under burst-biased random schedules, block size and arena size varied so that exhaustion and reuse occur; free-running stress with an ownership table for every pool; a case is non-trivial when at least two threads execute operations; distinct = distinct (cell, programs, schedule)"),
+        sum: Summary::new("C08", "controlled schedules (real threads parked at every schedule point of the zipora_verif hooks): corpus witnesses, every interleaving of two threads x one operation on a pre-filled free list, every interleaving of short pop/push pairs, stalled-operation windows (one thread stops after k steps of an operation while another runs a whole program that drains and refills the list), LockFreeMemoryPool with zero_on_free through deallocate_with_zero (three and more blocks of a class freed and reallocated), SecureMemoryPool with local_cache_size < batch_size - 1 spilling to the shared stack and refilling another thread, MemoryPool with a thread parked under the queue lock, then random programs of 2-3 threads (alloc / free k-th held / owner overwrites the link word or header / foreign malloc; per-thread request sizes for the fixed-capacity pool) under burst-biased random schedules, block size and arena size varied so that exhaustion and reuse occur; free-running stress with an ownership table for every pool; a case is non-trivial when at least two threads execute operations; distinct = distinct (cell, programs, schedule)"),
         shards: CoqShards::new(HEADER, 250),
         coq_used: HashMap::new(),
         out: args.out.clone(), child_seq: 0, thorough: args.thorough,
